@@ -324,6 +324,16 @@ func (vc *VC) evalSpec(e *Expr, env *SpecEnv) SV {
 			srt := specSort(v[1])
 			name := "q_" + v[0]
 			sv := SV{t: name, srt: srt}
+			// a variable used as the index of a heap slice, s[v]: quantify over the absolute position
+			// x = off(s) + v instead, so that the element term is select(row, x) with a plain variable in the
+			// index position - a trigger that matches every ground element term (an arithmetic index does not)
+			if (srt == "Int" || srt == "int") && !vc.dry {
+				if se := sliceIndexedBy(e, v[0]); se != nil && !mentionsAny(se, e.Vars) {
+					if s0 := vc.evalSpec(se, env.nopol()); s0.typ != nil && vc.sortOf(s0.typ) == "Slice" {
+						sv.t = sub(name, app("s_off", s0.t))
+					}
+				}
+			}
 			if srt == "byte" {
 				sv.srt = "Int"
 				srt = "Int"
@@ -338,6 +348,22 @@ func (vc *VC) evalSpec(e *Expr, env *SpecEnv) SV {
 			binders = append(binders, "("+name+" "+srt+")")
 			n = n.bind(v[0], sv)
 		}
+		// witness hints `{k == expr}` on an existential goal: the instance at the witness is offered to the solver
+		// as an extra disjunct (equivalent formula, easier proof)
+		var witnessInst []T
+		var realPats []*Expr
+		for _, pe := range e.Pat {
+			if pe.Op == "binop" && pe.Name == "==" && len(pe.Args) == 2 && pe.Args[0].Op == "ident" && len(e.Vars) == 1 && pe.Args[0].Name == e.Vars[0][0] {
+				if e.Name == "exists" && env.role == 1 && env.pol > 0 && !vc.dry {
+					w := vc.evalSpec(pe.Args[1], env.nopol())
+					nb := env.bind(e.Vars[0][0], SV{t: w.t, srt: "Int"}).nopol()
+					nb.role = 0
+					witnessInst = append(witnessInst, vc.evalSpec(e.Args[0], nb).t)
+				}
+				continue
+			}
+			realPats = append(realPats, pe)
+		}
 		body := vc.evalSpec(e.Args[0], n).t
 		if len(ranges) > 0 {
 			if e.Name == "forall" {
@@ -346,9 +372,9 @@ func (vc *VC) evalSpec(e *Expr, env *SpecEnv) SV {
 				body = and(append(ranges, body)...)
 			}
 		}
-		if len(e.Pat) > 0 {
+		if len(realPats) > 0 {
 			var pats []string
-			for _, pe := range e.Pat {
+			for _, pe := range realPats {
 				pats = append(pats, vc.evalSpec(pe, n).t)
 			}
 			body = "(! " + body + " :pattern (" + strings.Join(pats, " ") + "))"
@@ -356,6 +382,9 @@ func (vc *VC) evalSpec(e *Expr, env *SpecEnv) SV {
 		q := "(" + e.Name + " (" + strings.Join(binders, " ") + ") " + body + ")"
 		if len(extraInst) > 0 {
 			q = and(append([]T{q}, extraInst...)...)
+		}
+		if len(witnessInst) > 0 {
+			q = or(append([]T{q}, witnessInst...)...)
 		}
 		return mathBool(q)
 	case "select":
@@ -1068,11 +1097,18 @@ func (vc *VC) instantiateDefines(con *Contract, env *SpecEnv) (axioms []T, wellD
 		sym := defSym(d, env.app)
 		ix := sym + "_ix"
 		iv := SV{t: "df_i", srt: "Int"}
+		jv := SV{t: "df_j", srt: "Int"}
+		// absolute positions for a slice key (see evalSpec "quant")
+		if se := sliceIndexedBy(&Expr{Op: "paren", Args: []*Expr{d.Key}}, d.Idx); se != nil {
+			if s0 := vc.evalSpec(se, env.nopol()); s0.typ != nil && vc.sortOf(s0.typ) == "Slice" {
+				iv.t = sub("df_i", app("s_off", s0.t))
+				jv.t = sub("df_j", app("s_off", s0.t))
+			}
+		}
 		keyI := vc.evalSpec(d.Key, env.bind(d.Idx, iv).nopol())
 		ks := keyI.sortIn(vc)
 		vc.declRaw("fn:"+sym, fmt.Sprintf("(declare-fun %s (%s) Int)\n(declare-fun %s (%s) Int)", sym, ks, ix, ks))
 		valI := vc.evalSpec(d.Val, env.bind(d.Idx, iv).nopol())
-		jv := SV{t: "df_j", srt: "Int"}
 		keyJ := vc.evalSpec(d.Key, env.bind(d.Idx, jv).nopol())
 		valJ := vc.evalSpec(d.Val, env.bind(d.Idx, jv).nopol())
 		gv := SV{t: app(ix, "df_d"), srt: "Int"}
@@ -1082,10 +1118,65 @@ func (vc *VC) instantiateDefines(con *Contract, env *SpecEnv) (axioms []T, wellD
 		def := vc.evalSpec(d.Def, env.nopol()).t
 		rng := func(i T) T { return and(le(lo, i), lt(i, hi)) }
 		axioms = append(axioms,
-			"(forall ((df_i Int)) (! (=> "+rng("df_i")+" "+eq(app(sym, keyI.t), valI.t)+") :pattern ("+keyI.t+")))",
+			"(forall ((df_i Int)) (! (=> "+rng(iv.t)+" "+eq(app(sym, keyI.t), valI.t)+") :pattern ("+keyI.t+")))",
 			"(forall ((df_d "+ks+")) (! (or (and "+rng(gv.t)+" "+eq(keyG.t, "df_d")+") "+eq(app(sym, "df_d"), def)+") :pattern (("+sym+" df_d))))")
 		wellDefined = append(wellDefined,
-			"(forall ((df_i Int) (df_j Int)) (=> (and "+rng("df_i")+" "+rng("df_j")+" "+eq(keyI.t, keyJ.t)+") "+eq(valI.t, valJ.t)+"))")
+			"(forall ((df_i Int) (df_j Int)) (=> (and "+rng(iv.t)+" "+rng(jv.t)+" "+eq(keyI.t, keyJ.t)+") "+eq(valI.t, valJ.t)+"))")
 	}
 	return
+}
+
+// sliceIndexedBy finds an expression S such that S[v] occurs in e (patterns first) with v a plain identifier.
+func sliceIndexedBy(e *Expr, v string) *Expr {
+	var found *Expr
+	var walk func(x *Expr)
+	walk = func(x *Expr) {
+		if x == nil || found != nil {
+			return
+		}
+		if x.Op == "index" && len(x.Args) == 2 && x.Args[1] != nil && x.Args[1].Op == "ident" && x.Args[1].Name == v {
+			found = x.Args[0]
+			return
+		}
+		if x.Op == "quant" {
+			for _, qv := range x.Vars {
+				if qv[0] == v {
+					return // shadowed
+				}
+			}
+		}
+		for _, p := range x.Pat {
+			walk(p)
+		}
+		for _, a := range x.Args {
+			walk(a)
+		}
+	}
+	for _, p := range e.Pat {
+		walk(p)
+	}
+	for _, a := range e.Args {
+		walk(a)
+	}
+	return found
+}
+
+// mentionsAny: does expression e mention one of the quantified variables?
+func mentionsAny(e *Expr, vars [][2]string) bool {
+	if e == nil {
+		return false
+	}
+	if e.Op == "ident" {
+		for _, v := range vars {
+			if v[0] == e.Name {
+				return true
+			}
+		}
+	}
+	for _, a := range e.Args {
+		if mentionsAny(a, vars) {
+			return true
+		}
+	}
+	return false
 }
